@@ -44,7 +44,7 @@ SRC_EXT = (
 SRC_PLAIN = "{% for x in it FILTER %}{{ rec('x', x) }}{% else %}{{ rec('else') }}{% endfor %}{{ rec('end') }}"
 SRC_REC = (
     "{% for n in tree recursive %}{{ rec('n', n.v, loop.depth, loop.depth0, loop.index, loop.length, loop.last) }}"
-    "{% if n.c %}{{ loop(n.c) }}{% endif %}{% else %}{{ rec('else') }}{% endfor %}{{ rec('end') }}"
+    "{{ loop(n.c) }}{% else %}{{ rec('else') }}{% endfor %}{{ rec('end') }}"
 )
 
 ENV = Environment(extensions=["jinja2.ext.loopcontrols"])
@@ -92,11 +92,29 @@ def _iterable(xs):
         return gen_of(xs)
     if f == "agen":
         return agen_of(xs)
+    if f == "liar":
+        return Liar(xs)
     raise AssertionError(f)
+
+
+class Liar:
+    """A sized iterable whose len() is one more than the number of items it yields (e.g. a table: len = rows, iter = columns)."""
+
+    def __init__(self, xs):
+        self.xs = list(xs)
+
+    def __len__(self):
+        return len(self.xs) + 1
+
+    def __iter__(self):
+        return iter(self.xs)
 
 
 def _attr(a, ys, i):
     n = len(ys)
+    if P["form"] == "liar" and not P["filter"] and a in ("length", "revindex", "revindex0"):
+        # length-derived attributes follow len(); position attributes (last, nextitem) follow the iteration
+        n = n + 1
     if a == "length":
         return n
     if a == "last":
@@ -187,8 +205,11 @@ def _exp_tree(nodes, depth, log):
     n = len(nodes)
     for i, nd in enumerate(nodes):
         log.append(("n", nd.v, depth, depth - 1, i + 1, n, i == n - 1))
-        if nd.c:
-            _exp_tree(nd.c, depth + 1, log)
+        # loop(children) renders the loop body for the nested level, including its else branch when that level is empty;
+        # the else branch runs in the enclosing scope: at nested levels `loop` is the parent level's loop
+        _exp_tree(nd.c, depth + 1, log)
+    if n == 0:
+        log.append(("else",))
     return log
 
 
@@ -201,8 +222,6 @@ def rec_ok(ws: List[int]) -> bool:
     rec = Rec()
     _render(tree=tree if P["form"] == "list" else gen_of(tree), rec=rec)
     log = _exp_tree(tree, 1, [])
-    if not tree:
-        log.append(("else",))
     log.append(("end",))
     return rec.log == log
 
@@ -213,13 +232,13 @@ def conditions(tier, seed):
     to = 420 if thorough else 45
     out = []
     for asyncm in (False, True):
-        forms = ["list", "tuple", "iter", "gen"] + (["agen"] if asyncm else [])
+        forms = ["list", "tuple", "iter", "gen", "liar"] + (["agen"] if asyncm else [])
         for form in forms:
             for filt in (False, True):
-                if filt and form in ("tuple", "iter"):
+                if filt and form in ("tuple", "iter", "liar"):
                     continue
                 for slot2 in range(len(SLOT2)):
-                    if not thorough and slot2 in (3, 4) and form in ("tuple", "iter"):
+                    if not thorough and slot2 in (3, 4) and form in ("tuple", "iter", "liar"):
                         continue
                     p = dict(form=form, filter=filt, asyncm=asyncm, maxn=maxn, plain=False, slot2=slot2)
                     out.append(Cond(
